@@ -52,9 +52,91 @@ func staticCallee(c ssa.CallInstruction) *ssa.Function {
 
 var typeParamBind = map[*types.TypeParam]types.Type{}
 
+// freshFieldValue: ld reads field f of a struct that this function allocates and only fills field by field and
+// returns; f is assigned exactly once, in a block that dominates the read (or earlier in the same block): the value
+// assigned. Containers only (maps, slices, pointers to module structs): what is read back is the container that the
+// following statements fill, not a number.
+func freshFieldValue(ld *ssa.UnOp) (ssa.Value, bool) {
+	fa, ok := ld.X.(*ssa.FieldAddr)
+	if !ok {
+		return nil, false
+	}
+	al, ok := fa.X.(*ssa.Alloc)
+	if !ok {
+		return nil, false
+	}
+	switch ld.Type().Underlying().(type) {
+	case *types.Map, *types.Slice:
+	case *types.Pointer:
+		if isBigIntPtr(ld.Type()) {
+			return nil, false
+		}
+	default:
+		return nil, false
+	}
+	var store *ssa.Store
+	for _, r := range referrersOf(al) {
+		switch u := r.(type) {
+		case *ssa.FieldAddr:
+			if u.Field != fa.Field {
+				continue
+			}
+			for _, rr := range referrersOf(u) {
+				switch w := rr.(type) {
+				case *ssa.Store:
+					if w.Addr != ssa.Value(u) || store != nil {
+						return nil, false
+					}
+					store = w
+				case *ssa.UnOp, *ssa.DebugRef:
+				default:
+					return nil, false // the field's address goes elsewhere
+				}
+			}
+		case *ssa.Return, *ssa.DebugRef:
+		case *ssa.MakeInterface:
+			for _, rr := range referrersOf(u) {
+				if _, isRet := rr.(*ssa.Return); !isRet {
+					if _, isDbg := rr.(*ssa.DebugRef); !isDbg {
+						return nil, false
+					}
+				}
+			}
+		case *ssa.Store:
+			if u.Addr == ssa.Value(al) {
+				return nil, false // assigned as a whole (a copy of something else)
+			}
+			return nil, false
+		default:
+			return nil, false // handed to a call or stored somewhere before it is complete
+		}
+	}
+	if store == nil {
+		return nil, false
+	}
+	sb, lb := store.Block(), ld.Block()
+	if sb == lb {
+		for _, ins := range sb.Instrs {
+			if ins == ssa.Instruction(store) {
+				return store.Val, true
+			}
+			if ins == ssa.Instruction(ld) {
+				return nil, false
+			}
+		}
+	}
+	if sb.Dominates(lb) {
+		return store.Val, true
+	}
+	return nil, false
+}
+
 // virtualParamDesc: a field of a parameter object is the reference tree's plain parameter: "arg#h", or - when the
 // function is examined on behalf of a call - what the call site put into that field.
 func virtualParamDesc(v ssa.Value, depth int) (string, bool) {
+	if c, h, ok := bundledResult(v); ok {
+		return fmt.Sprintf("%s#%d", descD(c, depth+1), h), true
+	}
 	_, h, p, ok := virtualParam(v)
 	if !ok {
 		return "", false
@@ -87,7 +169,7 @@ func freshContainerHelper(c *ssa.Call) string {
 	}
 	var mk ssa.Value
 	for _, r := range returnsOf(g) {
-		m, ok := r.Results[0].(*ssa.MakeMap)
+		m, ok := retValue(r, 0).(*ssa.MakeMap)
 		if !ok || (mk != nil && mk != ssa.Value(m)) {
 			return ""
 		}
@@ -402,12 +484,12 @@ func extFuncName(f *ssa.Function) string {
 
 // typeShort renders a type with short package names for module types.
 func typeShort(t types.Type) string {
-	return types.TypeString(t, func(p *types.Package) string {
+	return aliasTypeNames(types.TypeString(t, func(p *types.Package) string {
 		if inModule(p) {
 			return shortPkg(p.Path())
 		}
 		return p.Path()
-	})
+	}))
 }
 
 // isCallTo reports whether instr is a call whose callee name (see calleeName) equals one of names.
@@ -651,7 +733,7 @@ func descD(v ssa.Value, depth int) string {
 		if x.Pkg != nil {
 			pk = shortPkg(x.Pkg.Pkg.Path())
 		}
-		return "global:" + pk + "." + x.Name()
+		return "global:" + pk + "." + globalName(x)
 	case *ssa.FieldAddr:
 		if d, ok := virtualParamDesc(x, depth); ok {
 			return d
@@ -745,6 +827,9 @@ func descD(v ssa.Value, depth int) string {
 				return descD(ta.X, depth+1)
 			}
 			return "isType(" + descD(ta.X, depth+1) + "," + typeShort(ta.AssertedType) + ")"
+		}
+		if c, ok := x.Tuple.(*ssa.Call); ok {
+			return fmt.Sprintf("%s#%d", descD(x.Tuple, depth+1), refResultIndex(c, x.Index))
 		}
 		return fmt.Sprintf("%s#%d", descD(x.Tuple, depth+1), x.Index)
 	case *ssa.Call:
@@ -1414,6 +1499,9 @@ func originD(v ssa.Value, depth int) ssa.Value {
 		return originD(x.X, depth+1)
 	case *ssa.UnOp:
 		if x.Op == token.MUL {
+			if fv, ok := freshFieldValue(x); ok {
+				return originD(fv, depth+1)
+			}
 			if al, ok := x.X.(*ssa.Alloc); ok {
 				var val ssa.Value
 				n := 0
@@ -1438,7 +1526,7 @@ func originD(v ssa.Value, depth int) ssa.Value {
 					if dead[r.Block()] {
 						continue
 					}
-					o := originD(r.Results[0], depth+1)
+					o := originD(retValue(r, 0), depth+1)
 					if n == 0 || o == res {
 						res = o
 						if n == 0 {
@@ -1479,7 +1567,7 @@ func computedIntResult(c *ssa.Call, k, depth int) (string, bool) {
 	out, n := "", 0
 	bindCall(c, g, func() {
 		for _, r := range returnsOf(g) {
-			d := descD(r.Results[k], depth+2)
+			d := descD(retValue(r, k), depth+2)
 			if n == 0 || d == out {
 				out = d
 				if n == 0 {
@@ -1700,10 +1788,10 @@ func descNND(v ssa.Value, depth int) string {
 	bindCall(c, g, func() {
 		dead := deadBlocks(g)
 		for _, r := range returnsOf(g) {
-			if dead[r.Block()] || isNilConst(r.Results[k]) {
+			if dead[r.Block()] || isNilConst(retValue(r, k)) {
 				continue
 			}
-			o := descNND(r.Results[k], depth+1)
+			o := descNND(retValue(r, k), depth+1)
 			if n == 0 || o == res {
 				res = o
 				if n == 0 {
